@@ -13,7 +13,7 @@ MANIFEST = dict(
     technique="Lean 4 proof (write-set invariant, two-phase fold closed form) + differential execution of generated mappers",
     design="5/C05")
 
-KEYS_PREFIX = ("to:", "from:", "writes:", "compile", "exit", "rt:")
+KEYS_PREFIX = ("to:", "from:", "writes:", "compile", "exit", "rt:", "toN:", "fromN:")
 DROP = ("to:nilrecv", "from:nilarg")
 
 
@@ -33,6 +33,11 @@ def shaped(g):
     out.append(("multi-name-tagged", g.pair(kinds=["same"], names=["tag"], n=(4, 5), multiname=1.0, embeds=0.0)))
     for i in range(3):
         out.append(("manual-hook-bodies", g.pair(manual=1.0, manual_body=1.0, kinds=["same", "conv", "func"], names=["ident"], n=(4, 6))))
+    # a name redeclared between two PROMOTED depths of a pointer chain, both declaration orders, on either side
+    for side in ("src", "dest"):
+        for order in ("embed-first", "field-first"):
+            for ptr in ((True, True), (True, False), (False, True)):
+                out.append(("shadow-chain-%s-%s" % (side, order), mapgen.shadow_chain(side, order, ptr)))
     out.append(("universe-types", g.pair(kinds=["same", "oneway", "none"], names=["ident"], n=(5, 6))))
     # finding regions
     out.append(("multi", g.pair(multi=1.0, n=(1, 2), names=["ident"])))
@@ -50,7 +55,8 @@ def gen_cases(ctx):
     g = mapgen.MapGen(ctx.rng)
     cases = []
     for i, (feat, sp) in enumerate([("witness-" + f, w) for f, w in mapgen.WITNESSES[PROP]()] + shaped(g)):
-        c = mapgen.make_case("s%d" % i, sp, roundtrip=True)
+        c = mapgen.make_case("s%d" % i, sp, roundtrip=True, masks=mapgen.part_masks(mapgen.side_struct(sp, "src")),
+                             fmasks=mapgen.part_masks(sp["dest"]))
         c["feat"] = feat
         cases.append(c)
     n = ctx.n(110, 2500)
@@ -71,7 +77,9 @@ def gen_cases(ctx):
             o = {"skip_shadow": 1.0, "embeds": 1.0}
         elif r < 0.30:
             o = {"manual": 1.0}
-        c = mapgen.make_case("r%d" % i, g.pair(**o), roundtrip=True)
+        sp = g.pair(**o)
+        c = mapgen.make_case("r%d" % i, sp, roundtrip=True, masks=mapgen.part_masks(mapgen.side_struct(sp, "src")),
+                             fmasks=mapgen.part_masks(sp["dest"]))
         c["feat"] = "random"
         cases.append(c)
     return cases
